@@ -10,7 +10,7 @@ ID = "C10"
 LEVEL = "exploration"
 RULE = ("Hypothesis-generated rejections: pull -> FAIL(reason) after j DATA records (0, middle, last); push -> FAIL at {SEND, after the k-th DATA record, DONE} x "
         "file sizes (single- and multi-WRTE at the drawn maxdata) x lag of the FAIL WRTE behind 0..3 later host packets (so it may overtake or trail OKAYs) x packet-order tape; "
-        "reason = arbitrary bytes 0..255 (UTF-8 and not), cut anywhere into WRTEs; invalid-status cases (a known sync id that is illegal at that point); both APIs. "
+        "reason = arbitrary bytes 0..255 (UTF-8 and not), cut anywhere into WRTEs; invalid-status cases (a known sync id that is illegal at that point, as a bare 8-byte header or as a complete 16-byte STAT record); both APIs. "
         "Oracle: pull -> AdbCommandFailureException, push -> PushFailedError, reason recoverable from the exception; invalid status -> InvalidResponseError; never a normal "
         "return; never a timeout once the device has reported. Non-trivial: FAIL not the first reply, or lag > 0, or reason split across WRTEs. Distinct = case hash.")
 ASSUMPTIONS = ["device simulator: OKAY for a host WRTE is immediate, service output may lag (AOSP adbd handle_packet vs. service thread)", "in-memory transport, virtual clock"]
@@ -46,6 +46,9 @@ def cases(draw):
             dev["recv_fail"] = {"after": j, "reason": reason}
         else:
             dev["recv_bad_status"] = {"after": j, "id": draw(st.sampled_from([i for i in KNOWN_IDS if i not in (wire.ID_DATA, wire.ID_DONE)]))}
+            if draw(st.sampled_from([False, False, True])):
+                # a complete, well-formed 16-byte STAT record (as a confused device would send), not just an 8-byte header
+                dev["recv_bad_status"] = {"after": j, "id": wire.ID_STAT, "raw": wire.sync_stat(draw(st.sampled_from([0o100644, 1, 0o40755, 2 ** 32 - 1])), draw(sc.u32()), draw(sc.u32()))}
         if dev["cuts"] and (n + 300) // min(dev["cuts"]) > 1500:
             dev["cuts"] = [max(x, (n + 300) // 1500 + 1) for x in dev["cuts"]]
         dev["lag"] = draw(st.lists(st.integers(0, 3), max_size=2))
@@ -62,6 +65,8 @@ def cases(draw):
             dev["push_fail"] = pf
         else:
             dev["push_bad_status"] = {"id": draw(st.sampled_from([i for i in KNOWN_IDS if i != wire.ID_OKAY]))}
+            if draw(st.sampled_from([False, False, True])):
+                dev["push_bad_status"] = {"id": wire.ID_STAT, "raw": wire.sync_stat(draw(st.sampled_from([0o100644, 1, 0o40755, 2 ** 32 - 1])), draw(sc.u32()), draw(sc.u32()))}
         dev["lag"] = draw(st.one_of(st.just([]), st.lists(st.integers(0, 3), min_size=1, max_size=3)))
         op = {"op": "push", "src": {"kind": "bytesio", "content": {"pat": draw(st.binary(min_size=1, max_size=4)), "n": size}}, "path": path,
               "mtime": draw(st.sampled_from([0, 12345])), "cb": draw(st.sampled_from([None, None, "rec"]))}
